@@ -93,7 +93,10 @@ Definition fwd_eqb (a b : fwd) : bool :=
 (* one update as fed to the real ValidationFilter, with the generator's verdict o_valid on the value
    ("does this object satisfy the validation rules?") and what the implementation did *)
 Record oop := { o_key : key; o_val : option value; o_valid : bool; o_fwd : fwd; o_evs : list ev }.
-Record case := { c_ops : list oop }.
+(* c_graph = false: the trace was taken at the ARC's callbacks (o_evs in emission order, including match events);
+   c_graph = true : the trace was taken at the END of the whole calculation graph: o_evs are the
+                    proto.ActiveProfileUpdate / ActiveProfileRemove messages the EventSequencer flushed after the update *)
+Record case := { c_graph : bool; c_ops : list oop }.
 
 (* short constructor names used by the generated case files *)
 Definition R := Build_crule.
@@ -119,7 +122,18 @@ Fixpoint ok_trace (d : ds) (v : view) (ops : list oop) : bool :=
       ok_filter o && no_panic (o_evs o) && ok_profiles d' v' && ok_policies d' v' && ok_trace d' v' ops'
   end.
 
-Definition ok_case (c : case) : bool := ok_trace ds0 view0 (c_ops c).
+(* whole-graph traces: profile observables only *)
+Fixpoint ok_trace_g (d : ds) (v : view) (ops : list oop) : bool :=
+  match ops with
+  | [] => true
+  | o :: ops' =>
+      let d' := ds_apply d (o_key o) (filtered o) in
+      let v' := view_apply_all v (o_evs o) in
+      ok_filter o && no_panic (o_evs o) && ok_profiles d' v' && ok_trace_g d' v' ops'
+  end.
+
+Definition ok_case (c : case) : bool :=
+  if c_graph c then ok_trace_g ds0 view0 (c_ops c) else ok_trace ds0 view0 (c_ops c).
 
 (* ------------------------------------------------------------------ model vs implementation *)
 
@@ -141,7 +155,28 @@ Fixpoint agree (s : st) (ops : list oop) : bool :=
       && list_eqb ev_eqb evs (o_evs o) && agree s' ops'
   end.
 
-Definition check_case (c : case) : bool * bool := (agree st0 (c_ops c), ok_case c).
+(* whole-graph traces: the iteration orders are not observable and the EventSequencer coalesces messages, so the
+   comparison is on the dataplane's view of the profiles after every update (it does not depend on the orders) *)
+Definition sub_view (a b : amap prules) : bool :=
+  forallb (fun kv : N * prules => match aget (fst kv) b with Some r => prules_eqb (snd kv) r | None => false end) a.
+Definition dedup_keys (a : amap prules) : amap prules :=
+  filter (fun kv : N * prules => match aget (fst kv) a with Some r => prules_eqb r (snd kv) | None => false end) a.
+Definition view_eqb (a b : amap prules) : bool := sub_view (dedup_keys a) b && sub_view (dedup_keys b) a.
+
+Fixpoint agree_g (s : st) (vm vi : view) (ops : list oop) : bool :=
+  match ops with
+  | [] => true
+  | o :: ops' =>
+      let '(s', evs) := step (fun _ => o_valid o) s
+                             {| i_key := o_key o; i_val := o_val o; i_sched := []; i_ord := [] |} in
+      let vm' := view_apply_all vm evs in
+      let vi' := view_apply_all vi (o_evs o) in
+      fwd_eqb (o_fwd o) (match filtered o with Some _ => FSame | None => FNil end)
+      && view_eqb (v_profs vm') (v_profs vi') && agree_g s' vm' vi' ops'
+  end.
+
+Definition check_case (c : case) : bool * bool :=
+  (if c_graph c then agree_g st0 view0 view0 (c_ops c) else agree st0 (c_ops c), ok_case c).
 
 (* ------------------------------------------------------------------ history-level reference objects (theorems) *)
 
